@@ -258,7 +258,9 @@ func (e *explorer) runOne(it *item, solver *smt.Solver) []*item {
 			"inputs": renderInputs(inputs, labels), "outcome": r.Outcome.String(), "msg": trunc(r.Msg, 200), "decisions": len(r.Trace),
 		})
 	}
-	if r.Outcome != interp.EngineError && r.Outcome != interp.Budget && (len(res.Tapes) < 400) && (res.Paths%7 == 1 || res.Paths < 40) {
+	// (a data race has no forced-schedule native counterpart: see raceReplay)
+	isRace := r.Outcome == interp.Violation && strings.HasPrefix(r.Msg, "data race:")
+	if r.Outcome != interp.EngineError && r.Outcome != interp.Budget && !isRace && (len(res.Tapes) < 400) && (res.Paths%7 == 1 || res.Paths < 40) {
 		res.Tapes = append(res.Tapes, inputs)
 		res.TapeOutcomes = append(res.TapeOutcomes, r.Outcome.String())
 		res.TapeObserved = append(res.TapeObserved, strings.Join(r.Observed, ";"))
